@@ -22,7 +22,10 @@ CONSTANTS
   RespondAfter,    \* FALSE = as written (`continue` responds, then fails) TRUE = candidate fix (b)
   FwdHonoursTerm,  \* FALSE = as written (forwarders ignore `terminated`)  TRUE = candidate fix (c)
   InitViaQueue,    \* FALSE = as written (`initialized` bypasses the latch) TRUE = candidate fix (d)
-  ClearCache       \* FALSE = as written (thread_cache survives process end) TRUE = candidate fix (e)
+  ClearCache,      \* FALSE = as written (thread_cache survives process end) TRUE = candidate fix (e)
+  DrainKeepsTerm   \* FALSE = as written: drain_events empties self.events and THEN returns if terminated (events
+                   \* enqueued while terminated are discarded).  TRUE = the mutation family "latch checked before
+                   \* the queue is taken": such events stay queued and surface after the next launch resets the latch
 
 Fwd   == {"fout", "ferr"}
 Procs == {"sess"} \cup Fwd
@@ -116,6 +119,8 @@ MonMsgViol(m, x) ==
    ELSE
       (IF m.rterm THEN {V("event_after_terminated", x.name)} ELSE {})
       \cup (IF x.name = "exited" /\ m.rexited THEN {V("exited_twice", CurCls(m))} ELSE {})
+      \cup (IF x.name = "terminated" /\ ~m.rexited /\ CurCls(m) \notin {"terminate", "disconnect", "termthreads"}
+              THEN {V("terminated_without_cause", CurCls(m))} ELSE {})
       \cup (IF x.name \in {"stopped", "continued"} /\ m.rdbg = "none"
               THEN {V("event_without_process", x.name)} ELSE {})
       \cup (IF x.name = "continued" /\ m.cur # NoCur /\ (c.nstop + c.nexit > 0)
@@ -242,11 +247,13 @@ DrainSends ==
 DrainLifecycle == ~termd /\ (Has(queue, InternalExited) \/ Has(queue, InternalTerminated))
 
 DoDrain(rest) ==
-  /\ todo' = DrainSends \o rest
-  /\ queue' = <<>>
-  /\ termd' = (termd \/ DrainLifecycle)
-  /\ minfo' = IF DrainLifecycle THEN FALSE ELSE minfo
-  /\ cache' = IF DrainLifecycle /\ ClearCache THEN 0 ELSE cache
+  IF termd /\ DrainKeepsTerm
+    THEN /\ todo' = rest /\ UNCHANGED <<queue, termd, minfo, cache>>
+    ELSE /\ todo' = DrainSends \o rest
+         /\ queue' = <<>>
+         /\ termd' = (termd \/ DrainLifecycle)
+         /\ minfo' = IF DrainLifecycle THEN FALSE ELSE minfo
+         /\ cache' = IF DrainLifecycle /\ ClearCache THEN 0 ELSE cache
 
 LoopDrain ==
   /\ ppc["sess"] = "top"
@@ -378,12 +385,17 @@ ExecSend ==   \* send_response_raw / send_event_raw: the message is built, next 
   /\ UNCHANGED <<seq, lock, wire, held, reqlog, closed, phs, queue, termd, dbg, mode, bpset, phase, gen,
                  cache, minfo, left, avail, mon, viol>>
 
-ExecEnq ==
+EnqBody ==
   /\ ppc["sess"] = "exec" /\ todo # <<>> /\ Head(todo).k = "enq"
   /\ queue' = Append(queue, Head(todo).m)
   /\ todo' = Tail(todo)
   /\ UNCHANGED <<seq, lock, wire, ppc, held, pending, reqlog, closed, phs, termd, dbg, mode, bpset, phase,
                  gen, cache, minfo, left, avail, mon, viol>>
+ExecEnq == ~termd /\ EnqBody
+\* a request handler enqueues an internal event while the session is terminated (pause / restart / step / goto /
+\* threads / breakpoint and query progress / a redundant terminateThreads after the end of the debuggee): the
+\* event must be discarded by the next drain and must never surface in a later launch
+ExecEnqTerm == termd /\ EnqBody
 
 ExecDrain ==
   /\ ppc["sess"] = "exec" /\ todo # <<>> /\ Head(todo).k = "drain"
@@ -464,7 +476,7 @@ ExecDone ==  \* plan finished: handler -> top of the loop; top drain -> read
   /\ UNCHANGED <<seq, lock, wire, held, pending, reqlog, closed, todo, phs, queue, termd, dbg, mode, bpset,
                  phase, gen, cache, minfo, left, avail, mon, viol>>
 
-SessLocal == ExecSend \/ ExecEnq \/ ExecDrain \/ ExecRefresh \/ ExecEnd \/ ExecDone \/ LoopDrain
+SessLocal == ExecSend \/ ExecEnq \/ ExecEnqTerm \/ ExecDrain \/ ExecRefresh \/ ExecEnd \/ ExecDone \/ LoopDrain
 Runs == \E out \in {"stop", "exit"}, more \in 0..(2 * (PreLines + PostLines)) : ExecRun(out, more)
 
 \* ---- the environment of the exhaustive model: the client -----------------------------------
@@ -490,7 +502,7 @@ Vio(cs) == {v \in viol : v.c \in cs}
 WireSeqOrdered         == \A i \in 1..Len(wire) : wire[i].seq = i
 WireSeqOrderedMon      == Vio({"seq_out_of_order"}) = {}
 OneResponsePerRequest  == Vio({"duplicate_response", "missing_response", "unmatched_response"}) = {}
-EventsOnceAndCausal    == Vio({"exited_twice", "event_without_process", "continued_after_stop",
+EventsOnceAndCausal    == Vio({"exited_twice", "terminated_without_cause", "event_without_process", "continued_after_stop",
                                "thread_started_twice", "thread_exited_twice", "missing_stop_event",
                                "duplicate_stop_event", "duplicate_continued_event", "spurious_stop_event",
                                "events_for_failed_request"}) = {}
